@@ -361,7 +361,7 @@ theorem C13_decode_strict (X : Ext) :
 
 /-! ## meaning -/
 
-/-- **An accepted document is given its XML meaning** (FULL since the repairs c575458 and eab498c of
+/-- **An accepted document is given its XML meaning** (FULL since the repairs c575458 and d365e05 of
 `Deserializer::text`; until then false for CDATA sections and interrupted text, findings `xml-cdata-dropped` /
 `xml-comment-splits-text`, and for literal CR LF / CR line ends, finding `xml-eol-not-normalised`; all fixed). For the
 character data of every scalar element `<name>run</name>` — at any nesting depth: `d` elements are open around `name`
@@ -382,7 +382,7 @@ theorem C13_decode_meaning (X : Ext) (run : List QEv) (name : Bytes) (rest : Lis
     readStringElement X name (deEventsAt (d + 1) (run ++ .stop name :: rest)) = .ok (.str m, deEventsAt d rest) :=
   ⟨textOf_meaning name rest d run m hm, readString_meaning X name rest d run m hm⟩
 
-/-- **Line ends are read as XML 1.0 §2.11 demands** (since the repair eab498c; finding `xml-eol-not-normalised`,
+/-- **Line ends are read as XML 1.0 §2.11 demands** (since the repair d365e05; finding `xml-eol-not-normalised`,
 fixed). What `xml/de.rs` does to the raw text of a CDATA section (`normLineEnds`: nothing when there is no CR,
 otherwise `replace("\r\n", "\n")` then `replace('\r', "\n")`) and of a text piece (`normText`, before references are
 resolved) *is* the specification's line-end normalisation `XmlSpec.normEol` (every CR LF pair and every other CR is
